@@ -17,11 +17,14 @@ import (
 	"testing"
 	"time"
 
+	bcreactor "github.com/kardiachain/go-kardia/blockchain"
+	"github.com/kardiachain/go-kardia/configs"
 	"github.com/kardiachain/go-kardia/consensus"
 	"github.com/kardiachain/go-kardia/kai/kaidb"
 	"github.com/kardiachain/go-kardia/kai/kaidb/memorydb"
 	auto "github.com/kardiachain/go-kardia/lib/autofile"
 	"github.com/kardiachain/go-kardia/lib/common"
+	"github.com/kardiachain/go-kardia/lib/log"
 	"github.com/kardiachain/go-kardia/lib/p2p"
 	"github.com/kardiachain/go-kardia/mainchain/blockchain"
 	"github.com/kardiachain/go-kardia/types"
@@ -362,6 +365,40 @@ func (s *crashScenario) startGated(g *gated) error {
 		g.tick.Schedule(ti)
 	}
 	return nil
+}
+
+// startGatedViaFastSync starts the restarted validator the way mainchain/backend.go does when fast sync is enabled: the
+// REAL block-sync reactor and consensus manager on a p2p switch (no peer is ahead: nobody is connected).  The reactor
+// finishes after its sync timeout having fetched nothing and its demux routine switches to consensus
+// (ConsensusManager.SwitchToConsensus -> ConsensusState.Start: WAL catch-up unless blocks were fetched).
+func (s *crashScenario) startGatedViaFastSync(g *gated) (stop func(), err error) {
+	gateMu.Lock()
+	gateMap[g.CS] = g
+	gateMu.Unlock()
+	g.isGated = true
+	fsCfg := configs.TestFastSyncConfig()
+	fsCfg.SyncTimeout = 100 * time.Millisecond
+	bcR := bcreactor.NewBlockchainReactor(g.CS.VerifState(), g.BE, g.Ops, fsCfg)
+	conR := consensus.NewConsensusManager(g.CS, fsCfg)
+	sw := p2p.MakeSwitch(configs.DefaultP2PConfig(), 0, "verif", "1.0", func(i int, sw *p2p.Switch) *p2p.Switch {
+		sw.AddReactor("BLOCKCHAIN", bcR)
+		sw.AddReactor("CONSENSUS", conR)
+		return sw
+	})
+	sw.SetLogger(log.New())
+	if err := sw.Start(); err != nil {
+		return func() {}, err
+	}
+	stop = func() { sw.Stop() }
+	select {
+	case <-g.arrive:
+	case <-time.After(60 * time.Second):
+		return stop, fmt.Errorf("fast sync did not switch to consensus (the consensus state never reached its receive loop)")
+	}
+	for _, ti := range g.TakeSched() {
+		g.tick.Schedule(ti)
+	}
+	return stop, nil
 }
 
 // stepGated lets the gated node take one input (injected by `inject`) and then everything it queued for itself.
@@ -795,6 +832,7 @@ func crashOnce(w *World, mode string, victim int, heights uint64, cut int, walVa
 	root := filepath.Join(tmp, "victim2")
 	os.MkdirAll(root, 0o700)
 	src := s.walAsIs
+	walVariant = strings.TrimSuffix(walVariant, "-fastsync")
 	if walVariant == "flushed" || walVariant == "torn" {
 		src = s.walFlush
 	}
@@ -823,6 +861,7 @@ func crashOnce(w *World, mode string, victim int, heights uint64, cut int, walVa
 		return
 	}
 	g := newGated(nv)
+	stopSwitch := func() {}
 	out.StoreH = nv.BO.Height()
 	out.HeadH = nv.BC.CurrentBlock().Height()
 	out.StateH = nv.CS.VerifState().LastBlockHeight
@@ -846,10 +885,17 @@ func crashOnce(w *World, mode string, victim int, heights uint64, cut int, walVa
 				out.StartErr = fmt.Sprintf("panic in OnStart: %v", r)
 			}
 		}()
-		if err := s.startGated(g); err != nil {
+		if strings.HasSuffix(out.WalVariant, "-fastsync") {
+			stop, err := s.startGatedViaFastSync(g)
+			stopSwitch = stop
+			if err != nil {
+				out.StartErr = "start through fast sync failed: " + err.Error()
+			}
+		} else if err := s.startGated(g); err != nil {
 			out.StartErr = "OnStart failed: " + err.Error()
 		}
 	}()
+	defer stopSwitch()
 	if out.StartErr != "" {
 		nv.Close()
 		return
@@ -988,6 +1034,9 @@ func TestCrashSweep(t *testing.T) {
 				continue
 			}
 			jobs = append(jobs, job{cut, "asis"})
+			if mode == "flush" && os.Getenv("CRASH_FASTSYNC") != "0" {
+				jobs = append(jobs, job{cut, "asis-fastsync"}) // the restart goes through the block-sync reactor (nobody is ahead)
+			}
 			if strings.HasPrefix(ops[cut-2].Kind, "wal.write") || strings.HasPrefix(ops[cut-1].Kind, "wal") {
 				jobs = append(jobs, job{cut, "flushed"})
 			}
